@@ -281,6 +281,56 @@ def default_context_reads(res, prog):
                     res.violation('C02.1c', 'C02.1c|%s|%s' % (f.qual, ty), f, t.get('line'), '%s::<%s>() reads with the default context, i.e. in the byte order of the machine running the parser, not of the dump' % (m.group(2), ty))
 
 
+def memory_regions(res, prog):
+    """C02.6: a memory region is exactly what its descriptor says.  MemoryList: base = desc.start_of_memory_range,
+    size = desc.memory.data_size, bytes = location_slice(all, desc.memory).  Memory64List: base = raw.start_of_memory_range,
+    size = raw.data_size, bytes = all[rva .. rva + raw.data_size] with rva advanced by exactly raw.data_size per descriptor
+    (the regions are consecutive slices from one base RVA) - no clamping, rounding or re-deriving of either number."""
+    res.rule('C02.6', 0, floor=2, note='memory regions: base / size / bytes come straight from the descriptor; Memory64 slices are consecutive')
+    c = prog.crate('minidump')
+    ITEM = r'\(Some\.0 \(<std::vec::IntoIter<T, A> as std::iter::Iterator>::next _\d*\)\)'
+    for f in c.fns:
+        if f.mac and f.mac.startswith('derive('):
+            continue
+        for b in sorted(f.reach):
+            for s_ in f.blocks[b]['s']:
+                if not (s_['k'] == 'assign' and s_['rv']['k'] == 'agg' and s_['rv'].get('ak') == 'adt' and s_['rv']['adt'].endswith('MinidumpMemoryBase')):
+                    continue
+                res.rule('C02.6', 1)
+                vals = dict((n, re.sub(r'\b_\d+\b', '_', show(f.expand(f.operand_tree(x))))) for n, x in zip(s_['rv'].get('fields', []), s_['rv']['xs']))
+                item = re.sub(r'\\d\*', '', ITEM)
+                if 'DESCRIPTOR64' in f.qual:
+                    it = '(Some.0 (<std::vec::IntoIter<T, A> as std::iter::Iterator>::next _))'
+                    want = {
+                        'desc': it,
+                        'base_address': it + '.start_of_memory_range',
+                        'size': it + '.data_size',
+                        'bytes': '(Continue.0 (trybranch (std::option::Option::ok_or (core::slice::get all (adt std::ops::Range::Range (cast usize rva) (cast usize (Continue.0 (trybranch (std::option::Option::ok_or (core::num::checked_add rva %s.data_size) (adt minidump::minidump::Error::StreamReadFailure))))))) (adt minidump::minidump::Error::StreamReadFailure))))' % it,
+                        'endian': 'endian',
+                    }
+                    # rva advances by exactly the end of the slice just taken
+                    rvas = [l for l in range(len(f.locals)) if f.local_name(l) == 'rva']
+                    steps = []
+                    for l in rvas:
+                        for d in f.defs.get(l, []):
+                            if d['kind'] == 'assign' and any(d['bb'] in body for body in f.loops().values()):
+                                steps.append(re.sub(r'\b_\d+\b', '_', show(f.expand(f.rvalue_tree(d['rv'])))))
+                    res.rule('C02.6', 1)
+                    if steps != ['(Continue.0 (trybranch (std::option::Option::ok_or (core::num::checked_add rva %s.data_size) (adt minidump::minidump::Error::StreamReadFailure))))' % it]:
+                        res.violation('C02.6', 'C02.6|rva-step', f, s_.get('line'), 'the running RVA of the Memory64 list is advanced by %s, not by exactly the descriptor\'s data_size' % (steps or 'nothing'))
+                else:
+                    want = {
+                        'desc': 'desc',
+                        'base_address': 'desc.start_of_memory_range',
+                        'size': '(cast u64 desc.memory.data_size)',
+                        'bytes': '(Continue.0 (trybranch (std::result::Result::or (minidump::minidump::location_slice data desc.memory) (adt std::result::Result::Err (adt minidump::minidump::Error::StreamReadFailure)))))',
+                        'endian': 'endian',
+                    }
+                for k, w in want.items():
+                    if vals.get(k) != w:
+                        res.violation('C02.6', 'C02.6|%s|%s' % ('mem64' if 'DESCRIPTOR64' in f.qual else 'mem', k), f, s_.get('line'), 'memory region field `%s` is %s; the descriptor says %s' % (k, (vals.get(k) or '?')[:200], w[:120]))
+
+
 def run(tier, t0):
     res = harness.Result(PID)
     prog = program()
@@ -290,6 +340,7 @@ def run(tier, t0):
     last_wins(res, prog)
     string_decoders(res, prog)
     default_context_reads(res, prog)
+    memory_regions(res, prog)
     res.assumptions += [
         'scroll reads a field with the endianness it is given and derive(Pread)/derive(SizeWith) walk the same field list (trusted crate)',
         'field offsets and padding against the serializer, identifier derivation and memory contents are NOT decided (they relate values to values)',
